@@ -139,47 +139,45 @@ theorem lookupSelect_ops (tbl : List Point) (x : Int) (dest d : Point) (gen idn 
 /-! ### layout, guards, parameter writes, hazards -/
 
 theorem lookupInit_facts :
-    G.lookupInit.inputs = ["v.points", "p"] ∧ G.lookupInit.outputs = ["v.points"]
+    G.lookupInit.inputs = ["r.f0", "p0"] ∧ G.lookupInit.outputs = ["r.f0"]
     ∧ G.lookupInit.guards = [] ∧ G.lookupInit.paramWrites = []
-    ∧ G.lookupInit.hazards = ["read of p after write of v.points"] := by
+    ∧ G.lookupInit.hazards = ["read of p0 after write of r.f0"] := by
   ptops_decide "C16TblOps.lookupInit_facts"
 
 theorem lookupSelect_facts :
-    G.lookupSelect.inputs = ["v.points", "dest", "x", "xabs", "xsign"]
-    ∧ G.lookupSelect.outputs = ["dest"]
-    ∧ G.lookupSelect.guards = [] ∧ G.lookupSelect.paramWrites = ["dest"]
-    ∧ G.lookupSelect.hazards = ["read of v.points after write of dest"]
-    ∧ G.lookupSelect.facts = [("opaque xabs", "uint8((((x >> 7) + x) ^ (x >> 7)))"),
-        ("opaque xsign", "int(((x >> 7) & 1))"),
-        ("index-checked", "v.points in [0, 7] of 8"), ("loop 1", "from 1 below 9 step 1")] := by
+    G.lookupSelect.inputs = ["r.f0", "p0", "p1", "xabs", "xsign"]
+    ∧ G.lookupSelect.outputs = ["p0"]
+    ∧ G.lookupSelect.guards = [] ∧ G.lookupSelect.paramWrites = ["p0"]
+    ∧ G.lookupSelect.hazards = ["read of r.f0 after write of p0"]
+    ∧ G.lookupSelect.facts = [("opaque xabs", "uint8((((p1 >> 7) + p1) ^ (p1 >> 7)))"), ("opaque xsign", "int(((p1 >> 7) & 1))"), ("index-checked", "r.f0 in [0, 7] of 8"), ("loop 1", "from 1 below 9 step 1")] := by
   ptops_decide "C16TblOps.lookupSelect_facts"
 
 /-- no write through the parameter `q` (a `q2 := q.Add(q, q)` would list it) -/
 theorem nafInit_facts :
-    G.nafInit5.inputs = ["v.points", "q"] ∧ G.nafInit5.outputs = ["v.points"]
+    G.nafInit5.inputs = ["r.f0", "p0"] ∧ G.nafInit5.outputs = ["r.f0"]
     ∧ G.nafInit5.guards = [] ∧ G.nafInit5.paramWrites = []
-    ∧ G.nafInit5.hazards = ["read of q after write of v.points"]
-    ∧ G.nafInit8.inputs = ["v.points", "q"] ∧ G.nafInit8.outputs = ["v.points"]
+    ∧ G.nafInit5.hazards = ["read of p0 after write of r.f0"]
+    ∧ G.nafInit8.inputs = ["r.f0", "p0"] ∧ G.nafInit8.outputs = ["r.f0"]
     ∧ G.nafInit8.guards = [] ∧ G.nafInit8.paramWrites = []
-    ∧ G.nafInit8.hazards = ["read of q after write of v.points"] := by
+    ∧ G.nafInit8.hazards = ["read of p0 after write of r.f0"] := by
   ptops_decide "C16TblOps.nafInit_facts"
 
 /-- the data-dependent index is the panic site `Model.WindowMul.nafSelect` models -/
 theorem nafSelect_facts :
-    G.nafSelect5.inputs = ["v.points", "dest", "x"] ∧ G.nafSelect5.outputs = ["dest"]
-    ∧ G.nafSelect5.paramWrites = ["dest"] ∧ G.nafSelect5.hazards = []
-    ∧ G.nafSelect5.facts = [("index-unchecked", "v.points[(x / 2)]")]
-    ∧ G.nafSelect8.inputs = ["v.points", "dest", "x"] ∧ G.nafSelect8.outputs = ["dest"]
-    ∧ G.nafSelect8.paramWrites = ["dest"] ∧ G.nafSelect8.hazards = []
-    ∧ G.nafSelect8.facts = [("index-unchecked", "v.points[(x / 2)]")] := by
+    G.nafSelect5.inputs = ["r.f0", "p0", "p1"] ∧ G.nafSelect5.outputs = ["p0"]
+    ∧ G.nafSelect5.paramWrites = ["p0"] ∧ G.nafSelect5.hazards = []
+    ∧ G.nafSelect5.facts = [("index-unchecked", "r.f0[(p1 / 2)]")]
+    ∧ G.nafSelect8.inputs = ["r.f0", "p0", "p1"] ∧ G.nafSelect8.outputs = ["p0"]
+    ∧ G.nafSelect8.paramWrites = ["p0"] ∧ G.nafSelect8.hazards = []
+    ∧ G.nafSelect8.facts = [("index-unchecked", "r.f0[(p1 / 2)]")] := by
   ptops_decide "C16TblOps.nafSelect_facts"
 
 theorem basepoint_facts :
-    G.basepointTable.inputs = ["varBasepointTable[].points"]
-    ∧ G.basepointTable.outputs = ["varBasepointTable[].points"]
+    G.basepointTable.inputs = ["varBasepointTable[].f0"]
+    ∧ G.basepointTable.outputs = ["varBasepointTable[].f0"]
     ∧ G.basepointTable.paramWrites = [] ∧ G.basepointTable.hazards = []
-    ∧ G.basepointNAFTable.inputs = ["varBasepointNAFTable.points"]
-    ∧ G.basepointNAFTable.outputs = ["varBasepointNAFTable.points"]
+    ∧ G.basepointNAFTable.inputs = ["varBasepointNAFTable.f0"]
+    ∧ G.basepointNAFTable.outputs = ["varBasepointNAFTable.f0"]
     ∧ G.basepointNAFTable.paramWrites = [] ∧ G.basepointNAFTable.hazards = [] := by
   ptops_decide "C16TblOps.basepoint_facts"
 
